@@ -6,9 +6,10 @@ proof   lean/CalmVerif/Props/C20.lean over Model.Unparse with the generated `ind
         program_ends_with_optional_newline (decide over the regenerated tables);
         level_returns_to_zero (all trees, all indent strings, any hooks), ends_with_one_newline_partial,
         other_lines_are_token_interiors, tokens_preserved, chunk_stream_structure, level_is_structural_depth,
-        level_is_depth_partial (no Case/Default), newline_handler_indents_by_level, empty_indent_string_is_used
+        level_is_depth_partial (no Case/Default), pretty_lines_indented (final text, all node kinds),
+        pretty_text_ends_with_one_newline, newline_handler_indents_by_level, empty_indent_string_is_used
         (regression obligation of fixed finding KF-20a).  The decidable hypotheses of the partial theorems (tailSafe,
-        tokensCleanB, valAll lineSafe / braceFree) are evaluated by the model on every program of the tie.
+        tokensCleanB, tokensEdgeB, lineStartsStable, valAll lineSafe / braceFree) are evaluated by the model on every program of the tie.
 tie     S3/S4 (parts/unparse_tie.py): fragment streams and printed text of the real printers vs `drv_unparse`,
         fragment by fragment incl. positions / name / source, for pretty_printer(indent) with
         indent in {'', ' ', '  ', '\\t', ' \\t', default}, rules.indent(None), minify_printer(drop_semi on/off),
@@ -435,7 +436,33 @@ def programs_for(ctx):
         ctx.bump('genjs:' + k, v)
     for _ in range(ctx.n(100, 1500)):
         texts.append(nested_program(rng))
+    # deep nesting (well past any small table or cache of indentation strings) and programs whose first token comes after
+    # several opened / closed blocks
+    for depth in (15, 16, 17, 18, 31, 32, 33, 40, 65):
+        texts.append(deep_program(rng, depth))
+    texts += ['{ {} }', '{ {} x; }', ';{ {;} }', '{ { {} } y(); }', '{{{}}{}}', '{ ; { ; } ; }', '{}{ {} }{}']
     return texts
+
+
+def deep_program(rng, depth):
+    open_, close = [], []
+    for i in range(depth):
+        k = rng.choice(['block', 'func', 'if', 'obj', 'switch', 'try', 'while'])
+        if k == 'block':
+            open_.append('{ a%d; ' % i); close.append(' }')
+        elif k == 'func':
+            open_.append('function f%d() { b%d; ' % (i, i)); close.append(' }')
+        elif k == 'if':
+            open_.append('if (c%d) { ' % i); close.append(' } else { e%d; }' % i)
+        elif k == 'obj':
+            open_.append('x%d = {k: function () { ' % i); close.append(' }, m: 1};')
+        elif k == 'switch':
+            open_.append('switch (s%d) { case %d: ' % (i, i)); close.append(' default: d%d; }' % i)
+        elif k == 'try':
+            open_.append('try { '); close.append(' } catch (e%d) { g%d; }' % (i, i))
+        else:
+            open_.append('while (w%d) { ' % i); close.append(' }')
+    return ''.join(open_) + 'z;' + ''.join(reversed(close))
 
 
 def indents_for(ctx, rng):
@@ -615,11 +642,17 @@ def check_hypotheses(ctx, items):
             n += 1
             if rep != 'OK T T':
                 bad.append(dict(text=label, with_comments=wc, indent=ind, reply=rep))
+            rep = drv.ask('linesok indent %s %s' % (ind, line))
+            ctx.bump('linesok:' + rep)
+            if rep != 'OK T T T T':
+                bad.append(dict(text=label, with_comments=wc, indent=ind, reply=rep,
+                                what='checkLines / lineStartsStable / tokensEdgeB / indentOK'))
         rep = drv.ask('treeok indent N %s' % line)
         ctx.bump('treeok:' + rep)
         if not rep.startswith('OK T T'):
             bad.append(dict(text=label, with_comments=wc, reply=rep, what='valAll lineSafe / braceFree'))
-    ctx.obligation('hypotheses of ends_with_one_newline_partial (tailSafe, tokensCleanB), other_lines_are_token_interiors '
+    ctx.obligation('statement and hypotheses of pretty_lines_indented (checkLines, lineStartsStable, tokensEdgeB), '
+                   'hypotheses of ends_with_one_newline_partial (tailSafe, tokensCleanB), other_lines_are_token_interiors '
                    '(valAll lineSafe) and level_is_structural_depth (valAll braceFree) hold on every parsed program', not bad,
                    'tie', '%d (tree, indent) pairs; first failures: %r' % (n, bad[:2]))
 
